@@ -249,7 +249,11 @@ def numba_newton_raphson(
                 iterates[2],
             )
 
-        if (absolute_difference < atol) & (relative_difference < rtol):
+        # An Aitken step does not use the function value: a small step does not
+        # imply we are close to the root.
+        if (
+            (absolute_difference < atol) & (relative_difference < rtol)
+        ) and not aitken_step:
             break
 
     else:
